@@ -130,12 +130,20 @@ class Impl(bfs.System):
             except Exception as e:  # noqa: BLE001
                 return ("raise", type(e).__name__)
             return ("new", tuple(ids))
-        if kind == "poll":
+        if kind == "waitall":
+            # somebody (an invocation of another task, running elsewhere) waits for everything submitted so far that
+            # is not final: those invocations are now claimed through the blocking-priority path of the poll
+            ids = [i for n, i in enumerate(self.ren.ids) if self.status_of(n) not in ("SUCCESS", "FAILED", "CONCURRENCY_CONTROLLED_FINAL")]
+            if not ids:
+                return ("nothing",)
+            self.app.orchestrator.waiting_for_results("waiter-of-another-task", ids)
+            return ("waiting", len(ids))
+        if kind in ("poll", "poll2"):
             r = op[1]
             before_q = dumps.queue(self.app, self.backend, self.ren)
             peers = self._peers()
             try:
-                got = list(self.app.orchestrator.get_invocations_to_run(1, runner_ctx(r)))
+                got = list(self.app.orchestrator.get_invocations_to_run(2 if kind == "poll2" else 1, runner_ctx(r)))
             except Exception as e:  # noqa: BLE001
                 self.poll_errors += 1
                 what = type(e).__name__
@@ -228,8 +236,12 @@ class Impl(bfs.System):
             if len(ids) > 1:
                 paths = sorted({self._path(hist, i) for i in ids})
                 return f"two-running-same-key:{'+'.join(paths)}"
-        if op[0] == "poll":
+        if op[0] in ("poll", "poll2"):
             lp = self.last_poll
+            if not lp["raised"]:
+                keys = [key_of(self.mode, *self.args[idx]) for idx in lp["got"]]
+                if len(set(keys)) < len(keys):
+                    return "one-poll-handed-out-two-invocations-of-one-key"
             if lp["raised"]:
                 head = lp["before_q"][0] if lp["before_q"] else None
                 return f"poll-raised:{lp['raised']}"
@@ -284,7 +296,7 @@ def alphabet(thorough: bool) -> list[tuple]:
            ("poll", "r1"), ("poll", "r2"), ("start", "r1"), ("start", "r2"), ("finish", "r1"), ("fail", "r1"),
            ("kill", "r1")]
     if thorough:
-        ops += [("submit", 1, 0), ("finish", "r2"), ("fail", "r2")]
+        ops += [("submit", 1, 0), ("finish", "r2"), ("fail", "r2"), ("poll2", "r1"), ("waitall",)]
     return ops
 
 
@@ -297,7 +309,12 @@ SEEDS = {
     "rerouted-behind-pending": [("submit", 0, 0), ("submit", 0, 0), ("poll", "r1"), ("start", "r1"), ("kill", "r1"),
                                 ("poll", "r2")],
     "two-pending-diff-args": [("submit", 0, 0), ("submit", 0, 1), ("poll", "r1"), ("poll", "r2")],
+    # a poll with two free slots over two same-key invocations: from the queue, and both waited on (blocking path)
+    "two-queued-same-key": [("submit", 0, 0), ("submit", 0, 0)],
+    "two-waited-on-same-key": [("submit", 0, 0), ("submit", 0, 0), ("waitall",)],
 }
+SEED_EXTRA_OPS = {"two-queued-same-key": [("poll2", "r1"), ("poll2", "r2")],
+                  "two-waited-on-same-key": [("poll2", "r1"), ("poll2", "r2"), ("waitall",)]}
 
 
 def _hist_unit(item: tuple) -> Partial:
@@ -305,6 +322,7 @@ def _hist_unit(item: tuple) -> Partial:
     p = Partial()
     impls = [Impl(env.MEM, mode, reroute), Impl(env.SQLITE, mode, reroute)]
     ops = alphabet(thorough)
+    ops = ops + [o for o in SEED_EXTRA_OPS.get(seed, []) if o not in ops]
 
     def inv(s: bfs.System, hist: list) -> str | None:
         return s.judge(hist)  # type: ignore[attr-defined]
